@@ -59,7 +59,7 @@ FIELDS = [
 OPS = ["==", "!=", "<", "<=", ">", ">=", "in", "not in"]
 LITERALS = [("int", "5"), ("float", "1.5"), ("str", "'x'"), ("bytes", "b'x'"), ("None", "None"), ("True", "True"),
             ("list", "[1, 'x']"), ("tuple", "(1, 'x')")]
-CONTAINER_KINDS = {"str", "list", "tuple", "field:string", "field:stringlist", "field:string[]", "field:uri",
+CONTAINER_KINDS = {"ctor:net.ipv4.Subnet", "ctor:net.ipnetwork", "field:net.ipnetwork", "str", "list", "tuple", "field:string", "field:stringlist", "field:string[]", "field:uri",
                    "list-with-missing", "tuple-with-missing"}
 CONTEXTS = [
     ("bare", "{X}", lambda x: x),
@@ -76,6 +76,9 @@ def others():
     out = list(LITERALS)
     for t, n, _ in FIELDS:
         out.append(("field:" + t, "r." + n))
+    out.append(("ctor:net.ipv4.Subnet", "net.ipv4.Subnet('10.0.0.0/8')"))
+    out.append(("ctor:net.ipnetwork", "net.ipnetwork('10.0.0.0/8')"))
+    out.append(("ctor:net.ipaddress", "net.ipaddress('10.0.0.1')"))
     out.append(("missing", "r.nope2"))
     out.append(("list-with-missing", "[r.nope2]"))
     out.append(("tuple-with-missing", "(r.nope2, 1)"))
@@ -153,7 +156,8 @@ def row_sig(case, outcome):
         return "compiled/membership/missing-left-in-string/raised:TypeError"
     if e == "compiled" and op == "in" and outcome == "comparison-true" and "missing" in other:
         return "compiled/in/both-missing/comparison-true"
-    return "%s/%s/missing-%s/%s/%s" % (e, op.replace(" ", ""), side, other, outcome)
+    # the value's type decides, not whether it came from a field or from a constructor call
+    return "%s/%s/missing-%s/%s/%s" % (e, op.replace(" ", ""), side, other.replace("ctor:", "field:"), outcome)
 
 
 # ---------------------------------------------------------------------------------------------
